@@ -672,9 +672,8 @@ def oracle_step(props, before, after, D, roots, flt, adopt, entry, plan, code, i
         if is_manifest_name(os.path.basename(p)) and p not in mpaths:
             bad.append(('C04', 'a manifest not belonging to a selected root changed: %s' % p))
         if flt is not None:
-            own_root = any(p.startswith(r['root'] + '/') for r in roots)
-            if not own_root:
-                bad.append(('C04', 'with --target %s a path outside the selected target roots changed: %s' % (flt, p)))
+            # (a recorded file of the selected target may lie in a root that is switched off now — the snapshot
+            #  fallback still lists it; what the property forbids is touching ANOTHER target's file or manifest)
             if D_all is not None:
                 others = {t for t, q in accepted_entries(before, [r for r in R_all if r['target'] != flt], ids) if q == p}
                 others |= {d['target'] for d in D_all if d['path'] == p and d['target'] != flt}
